@@ -3,6 +3,8 @@ use vbase::engine::{Ctx, Sub};
 pub mod c02;
 pub mod c03;
 pub mod c07;
+pub mod c08;
+pub mod c09;
 
 pub struct Prop {
     pub id: &'static str,
@@ -17,6 +19,8 @@ pub fn all() -> Vec<Prop> {
         Prop { id: "C02", run: c02::run, subs: c02::subs, rule: c02::RULE, assumptions: c02::ASSUMPTIONS },
         Prop { id: "C03", run: c03::run, subs: c03::subs, rule: c03::RULE, assumptions: c03::ASSUMPTIONS },
         Prop { id: "C07", run: c07::run, subs: c07::subs, rule: c07::RULE, assumptions: c07::ASSUMPTIONS },
+        Prop { id: "C08", run: c08::run, subs: c08::subs, rule: c08::RULE, assumptions: c08::ASSUMPTIONS },
+        Prop { id: "C09", run: c09::run, subs: c09::subs, rule: c09::RULE, assumptions: c09::ASSUMPTIONS },
     ]
 }
 
